@@ -12,7 +12,7 @@ pub const F: &[&str] = &[
     "<!--<script", "</scri", "<style>", "</style>", "<textarea>", "</textarea>", "<xmp>",
     "</xmp>", "<plaintext>", "<noscript>", "<iframe>", "<noembed>", "<noframes>", "<select>",
     "</select>", "<option>", "<template>", "</template>", "<frameset>", "<table>", "<td>",
-    "<input>", "<keygen>", "é", "<a/b c=d e>", "<a b=c>", "\u{FEFF}", "€", "</a ", "<title/>", "<script/>",
+    "<input>", "<keygen>", "é", "<a/b c=d e>", "<a b=c>", "\u{FEFF}", "€", "</a ", "<title/>", "<script/>", "</a/",
 ];
 
 pub const F_CORE: usize = 24;
